@@ -394,6 +394,7 @@ func (l *Listener) Armed() bool { return l.armed && !l.expired && !l.closed }
 // must have checked Armed (typically as the predicate of its scheduling point).
 func (l *Listener) Expire() {
 	vsched.EnvProgress()
+	vsched.AdvanceClock(time.Hour)
 	if l.armed && !l.closed {
 		l.expired = true
 		vsched.Release(l)
